@@ -298,7 +298,8 @@ def p_lv(lv):
         return p_val(lv["v"])
     if lv["k"] == "lity":
         return "literally (%s)" % pp(lv["e"])
-    return ", ".join(p_lv(x) if x["k"] != "tuple" else "(%s)" % p_lv(x) for x in lv["xs"])
+    inner = ", ".join(p_lv(x) if x["k"] != "tuple" else "(%s)" % p_lv(x) for x in lv["xs"])
+    return inner + "," if len(lv["xs"]) == 1 else inner      # a one-item pattern is `x,`
 
 
 def p_ix(ix):
